@@ -238,6 +238,9 @@ func (n *Net) lookupUDPLocked(dst *net.UDPAddr) *UDPSock {
 		if s, ok := n.udp[key(net.IPv4zero, dst.Port)]; ok && s.v4 {
 			return s
 		}
+		if s, ok := n.udp[key(net.IPv6unspecified, dst.Port)]; ok && s.Dual {
+			return s
+		}
 	} else if s, ok := n.udp[key(net.IPv6unspecified, dst.Port)]; ok && !s.v4 {
 		return s
 	}
@@ -281,6 +284,26 @@ func (n *Net) send(src *UDPSock, from, to *net.UDPAddr, data []byte) {
 			deliver()
 		}
 	}
+}
+
+// BindUDPDual binds the dual-stack wildcard socket [::]:port (net.ListenPacket("udp", ":port")
+// on a host with both families).
+func (n *Net) BindUDPDual(port int) (*UDPSock, error) {
+	s, err := n.BindUDPOpt("udp6", net.IPv6unspecified, port, false)
+	if err != nil {
+		return nil, err
+	}
+	n.mu.Lock()
+	clash := n.udpBusyLocked(net.IPv4zero, s.local.Port, true, false)
+	n.mu.Unlock()
+	if clash {
+		_ = s.Close()
+
+		return nil, errAddrInUse("listen", s.local)
+	}
+	s.Dual = true
+
+	return s, nil
 }
 
 // Wire returns the UDP wire log entries from index `from` on.
@@ -367,6 +390,10 @@ type UDPSock struct {
 	Born  time.Time
 	local *net.UDPAddr
 	v4    bool
+	// Dual marks an IPv6 wildcard socket without IPV6_V6ONLY: it also receives datagrams
+	// addressed to the host's IPv4 addresses and reports their sources in the 16-byte
+	// IPv4-mapped form, as the kernel does.
+	Dual bool
 
 	mu         sync.Mutex
 	queue      []pkt
@@ -404,6 +431,9 @@ func (s *UDPSock) enqueue(from *net.UDPAddr, data []byte) {
 		s.mu.Unlock()
 
 		return
+	}
+	if s.Dual && len(from.IP) == net.IPv4len {
+		from = &net.UDPAddr{IP: from.IP.To16(), Port: from.Port}
 	}
 	s.queue = append(s.queue, pkt{from: from, data: data})
 	s.mu.Unlock()
